@@ -102,8 +102,8 @@ Proof.
   - now rewrite Hb.
   - now rewrite bool_decide_eq_true_2.
 Qed.
-(* once a temporary ban has run out the address is admitted again *)
-Theorem expired_ban_admits ip qs u now :
+(* once a temporary ban has run out the address is let in again *)
+Theorem expired_ban_lets_in ip qs u now :
   last_request ip qs = Some (Some u) -> u <= now -> verdict_of_request (last_request ip qs) now = Admit.
 Proof. intros -> H. cbn. replace (now <? u) with false by lia. reflexivity. Qed.
 
